@@ -225,6 +225,8 @@ def run_shard(exe, cases, tag):
             errs[int(head)] = body
     cur, last = None, -1
     for ln in so.splitlines():
+        if not ln:
+            continue
         if ln.startswith("# case "):
             w = ln.split()
             last = int(w[2])
